@@ -13,7 +13,7 @@ fi
 DEMO="env DECIMALFP_FORCE_PYTHON_IMPL=1 PYTHONPATH=$W/src /venv/bin/python $SRC/${M}_demo.py"
 $DEMO >$TMPD/demo_clean.out 2>&1; rc0=$?
 git apply $SRC/$M.diff 2>/dev/null || git apply -3 $SRC/$M.diff
-git diff > $TMPD/cur.diff
+git diff HEAD > $TMPD/cur.diff
 T=$(PYTHONPATH=$W/src timeout 900 /venv/bin/python -m pytest -q -p no:cacheprovider --timeout=900 tests 2>&1 | tail -1)
 $DEMO >$TMPD/demo_mut.out 2>&1; rc1=$?
 log "demo-clean=$rc0 demo-mutant=$rc1 tests: $T"
